@@ -50,6 +50,33 @@ func corpus(e *ev.Env, w *witnesses) {
 	// two concurrent duplicates, all schedules; first execution failing
 	all("two-duplicates", scenario{Reqs: pairs[0]}, faultPlan{})
 	all("two-duplicates-first-fails", scenario{Reqs: pairs[0], FailFirst: true}, faultPlan{})
+	// near keys: different strings are different keys, each gets its own execution and its own
+	// replay, sequentially (each key twice, interleaved) and with all schedules of two requests
+	{
+		var reqs []reqSpec
+		for _, k := range append([]string{keyPool[0]}, nearKeys...) {
+			reqs = append(reqs, keyedReq("POST", k))
+		}
+		for _, k := range append([]string{keyPool[0]}, nearKeys...) {
+			reqs = append(reqs, keyedReq("PUT", k))
+		}
+		all("near-keys-sequential", seq(reqs...), faultPlan{})
+		reqs = nil
+		for _, k := range append([]string{keyPool[0]}, anyKeys...) {
+			reqs = append(reqs, keyedReq("POST", k))
+		}
+		for _, k := range append([]string{keyPool[0]}, anyKeys...) {
+			reqs = append(reqs, keyedReq("PATCH", k))
+		}
+		sc := seq(reqs...)
+		sc.AnyKey = true
+		all("near-keys-sequential-custom-validator", sc, faultPlan{})
+		sc.Keep, sc.ShapeBase = keepList, 3
+		all("near-keys-sequential-custom-validator-keep", sc, faultPlan{})
+		mem := seq(keyedReq("POST", keyPool[0]), keyedReq("POST", nearKeys[0]), keyedReq("POST", nearKeys[1]), keyedReq("POST", keyPool[0]), keyedReq("POST", nearKeys[0]))
+		mem.MemStore = true
+		all("near-keys-sequential-memory-storage", mem, faultPlan{})
+	}
 	// harness self-check: sharding a schedule tree by a prefix of choices neither loses nor
 	// duplicates schedules (same set of interleavings as the unsharded DFS)
 	e.Corpus("selfcheck-prefix-sharding", func(c *ev.Case) {
